@@ -612,4 +612,45 @@ C09(ctx) ==
           \cup ScalarFollow(ctx.M, ctx.before, ctx.after, ctx.obj))
 
 C09Idem(ctx) == IF ctx.pn \/ ctx.after = ctx.before THEN {} ELSE {VG("C09.idempotent", ctx.M.path)}
+
+---------------------------------------------------------------------------
+\* C17  custom-type fields are delegated to the user's three hooks (top-level fields of the root message;
+\* the harness's hooks log every call with its arguments)
+
+CustomIdx(M) == {i \in DOMAIN M.fields : M.fields[i].kind = "custom"}
+CallsOf(hooks, kind, suffix) == {i \in DOMAIN hooks : hooks[i].hook = kind /\ hooks[i].suffix = suffix}
+
+\* ctx: [M, obj (source), pre (target before), tf (target after), hooks, dg, pn]
+C17To(ctx) ==
+  IF ctx.pn THEN {} ELSE
+  UNION {
+    LET F == ctx.M.fields[i]
+        calls == CallsOf(ctx.hooks, "CopyTo", F.suffix)
+        typed == F.attr \in DOMAIN ctx.pre.at
+        cur == IF ~ctx.pre.attrsnil /\ F.attr \in DOMAIN ctx.pre.attrs THEN ctx.pre.attrs[F.attr] ELSE VNilIf
+        src == SrcVal(F, ctx.obj)
+    IN IF ~typed THEN (IF calls # {} THEN {V("C17.to_call", F, "called without attribute type")} ELSE {})
+                      \cup (IF HasDiag(ctx.dg, "writeMissing", F.path) THEN {} ELSE {V("C17.missing_diag", F, "write")})
+       ELSE IF Cardinality(calls) # 1 THEN {V("C17.to_call", F, "not called exactly once")}
+       ELSE LET h == ctx.hooks[CHOOSE k \in calls : TRUE]
+            IN (IF h.field # src THEN {V("C17.to_call", F, "field value")} ELSE {})
+               \cup (IF h.type # ctx.pre.at[F.attr] THEN {V("C17.to_call", F, "attribute type")} ELSE {})
+               \cup (IF h.cur # cur THEN {V("C17.to_call", F, "current value")} ELSE {})
+               \cup (IF AttrOf(ctx.tf, F) # h.ret THEN {V("C17.to_stored", F, "")} ELSE {})
+    : i \in CustomIdx(ctx.M) }
+
+\* ctx: [M, tf (input), hooks, dg, pn]
+C17From(ctx) ==
+  IF ctx.pn THEN {} ELSE
+  UNION {
+    LET F == ctx.M.fields[i]
+        calls == CallsOf(ctx.hooks, "CopyFrom", F.suffix)
+        a == IF ctx.tf.k = "obj" /\ ~ctx.tf.attrsnil /\ F.attr \in DOMAIN ctx.tf.attrs THEN ctx.tf.attrs[F.attr] ELSE VNilIf
+        missing == ~(ctx.tf.k = "obj" /\ ~ctx.tf.attrsnil /\ F.attr \in DOMAIN ctx.tf.attrs)
+    IN (IF Cardinality(calls) # 1 THEN {V("C17.from_call", F, "not called exactly once")}
+        ELSE LET h == ctx.hooks[CHOOSE k \in calls : TRUE]
+             IN (IF h.value # a THEN {V("C17.from_call", F, "attribute value")} ELSE {})
+                \cup (IF ~h.isptr THEN {V("C17.from_call", F, "not a pointer to the field")} ELSE {}))
+       \cup (IF missing /\ ~HasDiag(ctx.dg, "readMissing", F.path) THEN {V("C17.missing_diag", F, "read")} ELSE {})
+    : i \in CustomIdx(ctx.M) }
 =============================================================================
